@@ -552,6 +552,12 @@ class _Num:
     def __bool__(s):
         return Ctx.cur.branch(s.e != 0)
 
+    def __copy__(s):
+        return s
+
+    def __deepcopy__(s, memo):
+        return s
+
     def __hash__(s):
         return hash(class_rep(s))
 
